@@ -221,9 +221,9 @@ func c10global(c *core.Ctx) {
 }
 
 var globalTable = map[string]string{
-	"notations/jschema/loader.loaderPool":     "sync.Pool of loaders; state isolation is rule C10.reset",
-	"notations/jschema.exampleBufferPool":     "pool of buffers; Put resets the buffer and rule C10.pool forbids aliasing results",
-	"openapi/internal.BufferPool":             "pool of buffers; see exampleBufferPool",
-	"notations/jschema/ischema.virtualAnyNode": "lazily built singleton guarded by virtualAnyNodeOnce (sync.Once); users only read it (rule C11.ro)",
+	"notations/jschema/loader.loaderPool":          "sync.Pool of loaders; state isolation is rule C10.reset",
+	"notations/jschema.exampleBufferPool":          "pool of buffers; Put resets the buffer and rule C10.pool forbids aliasing results",
+	"openapi/internal.BufferPool":                  "pool of buffers; see exampleBufferPool",
+	"notations/jschema/ischema.virtualAnyNode":     "lazily built singleton guarded by virtualAnyNodeOnce (sync.Once); users only read it (rule C11.ro)",
 	"notations/jschema/ischema.virtualAnyNodeOnce": "sync.Once guarding virtualAnyNode",
 }
